@@ -919,6 +919,7 @@ type Model struct {
 	Vars   map[string]uint64
 	Arrays map[string]map[uint64]uint8
 	ArrDef map[string]uint8
+	Miss   bool // set by Eval when a variable or array cell was not part of the model
 }
 
 func NewModel() *Model {
@@ -946,7 +947,11 @@ func Eval(t *Term, m *Model, memo map[int]uint64) uint64 {
 	case "false":
 		r = 0
 	case "var":
-		r = m.Vars[t.Name]
+		v, ok := m.Vars[t.Name]
+		if !ok {
+			m.Miss = true
+		}
+		r = v
 		if t.W == 0 {
 			r &= 1
 		}
@@ -958,6 +963,7 @@ func Eval(t *Term, m *Model, memo map[int]uint64) uint64 {
 				break
 			}
 		}
+		m.Miss = true
 		r = uint64(m.ArrDef[t.Name])
 	case "=":
 		r = b2u(a(0) == a(1))
